@@ -576,6 +576,8 @@ def _one_ie(ctx, c, mod):
     if True:
         out = impl.run_ie(c)
         ctx.stat(f"ie:mode={c['mode']}:cap={c['opm']['cap']}:approx={'no' if c.get('approx') is None else c['approx']['cap']}")
+        if c.get("reuse"):
+            ctx.stat("ie:controller-reused")
         why = compare_ie(ctx, c, out, mod)
         ctx.case(c, nontrivial="error" not in out and len(out["recs"]) > 0)
         if why is not None:
